@@ -8,6 +8,7 @@ import (
 	"fmt"
 
 	"github.com/cbeuw/Cloak/internal/vnet"
+	"github.com/cbeuw/Cloak/internal/vref"
 	"github.com/cbeuw/Cloak/internal/vrt"
 	"github.com/cbeuw/Cloak/internal/vrt/sync"
 	"github.com/cbeuw/Cloak/internal/vx"
@@ -51,6 +52,13 @@ func init() {
 					}
 					if i < n-1 { // a closing frame carries padding, not data
 						want = append(want, pl...)
+					}
+					if i == c.PI("empty", -1) && i < n-1 {
+						// a data frame with an empty payload: Cloak's own encoder refuses to build one, its decoder
+						// accepts it under every method, so a peer can put one on the wire (reference encoder)
+						want = want[:len(want)-len(pl)]
+						frames[i], _ = vref.Encode(vref.MethodPlain, rigKey, vref.RefFrame{StreamID: 1, Seq: uint64(i), Trailer: []byte{1, 2, 3, 4, 5, 6, 7, 8}})
+						continue
 					}
 					frames[i] = c11Encode(&o, 1, uint64(i), closing, pl, 0)
 				}
@@ -109,3 +117,72 @@ func init() {
 		return vx.RunSched(c, sc, sigOf("C02"))
 	}})
 }
+
+// C02 / C01 driver: one connection lags. Frames 1..lag of a stream (and then its closing frame) arrive
+// over one connection while frame 0 is still under way on the other ("any relative delay between the
+// underlying connections"); frame 0 arrives last and nothing follows it. The application reads all
+// lag+1 payloads in order and then the end of the stream. lag is an explorer choice among values
+// around the powers of two where a window or batch limit would sit.
+func init() {
+	vx.Register(&vx.Scenario{Name: "sesh.lag", Prop: "C02", Run: func(c *vx.Ctx) *vx.Report {
+		lags := parseInts(c.P("lags", "1,127,128,129,1023,1024,1025,3000"))
+		sc := &vrt.Scenario{
+			Opt:      vrt.Options{Delay: true, StepCap: 50000000},
+			Classify: deadlockIs("in-order-delivery: the reader never saw the end of the stream"),
+			Main: func() {
+				lag := lags[vrt.Choose(len(lags), "lag")]
+				o, _ := MakeObfuscator(EncryptionMethodPlain, rigKey)
+				nw := vnet.New()
+				nw.NoTap = true
+				sesh := MakeSession(7, SessionConfig{Obfuscator: o, Valve: UNLIMITED_VALVE, MsgOnWireSizeLimit: 600})
+				a0, b0 := nw.Pair("c0", true)
+				a1, b1 := nw.Pair("c1", true)
+				sesh.AddConnection(b0)
+				sesh.AddConnection(b1)
+				var want []byte
+				pl := func(i int) []byte { return []byte(fmt.Sprintf("[frame %06d of the stream]", i)) }
+				for i := 0; i <= lag; i++ {
+					want = append(want, pl(i)...)
+				}
+				var wg sync.WaitGroup
+				var got []byte
+				var rerr error
+				wg.Add(1)
+				vrt.Go("app", func() {
+					defer wg.Done()
+					conn, err := sesh.Accept()
+					if err != nil {
+						rerr = fmt.Errorf("Accept: %w", err)
+						return
+					}
+					buf := make([]byte, 4096)
+					for {
+						k, err := conn.Read(buf)
+						got = append(got, buf[:k]...)
+						if err != nil {
+							rerr = err
+							return
+						}
+					}
+				})
+				for i := 1; i <= lag; i++ {
+					a1.Write(c11Encode(&o, 1, uint64(i), 0, pl(i), 0))
+				}
+				a1.Write(c11Encode(&o, 1, uint64(lag+1), closingStream, []byte{0}, 0))
+				quiesce()
+				a0.Write(c11Encode(&o, 1, 0, 0, pl(0), 0)) // the lagging connection delivers at last
+				quiesce()
+				wg.Wait()
+				if !bytes.Equal(got, want) {
+					vrt.Fail("in-order-delivery", "one connection lagged by %d frames of the stream (frame 0 arrived last): the application read %d of %d bytes (%d whole frames) then %v", lag, len(got), len(want), len(got)/len(pl(0)), rerr)
+				}
+				if !errors.Is(rerr, ErrBrokenStream) {
+					vrt.Fail("in-order-delivery", "lag %d: after the data the reader got %v", lag, rerr)
+				}
+				vrt.Observe("delivered")
+			},
+		}
+		return vx.RunSched(c, sc, sigOf("C02"))
+	}})
+}
+
